@@ -36,7 +36,10 @@ class SugarGen:
         for v in scope:
             if rng.random() < 0.7:
                 t += " {{" + v + "}}"
-        return t
+        # (the text never ENDS in a reference: a value that renders to nothing would leave a trailing blank, which the
+        # twin's cell loses when it is read while the sugared cell is trimmed before it is instantiated — an artefact of
+        # comparing through cells, nothing C03 speaks about)
+        return t + " ." if t.endswith("}}") else t
 
     def include_if(self, scope):
         rng = self.rng
@@ -141,6 +144,13 @@ class SugarGen:
             cell = "{@range(" + str(k) + ")@}"
         else:
             cell = "{@[" + ",".join(repr(e) for e in elems) + "]@}"
+        if k >= 1 and rng.random() < 0.2:
+            # the LAST element is falsy but is an element all the same (blank text, zero): the loop runs for it, and
+            # its variables are gone after end_for like any other loop's
+            if rng.random() < 0.5:
+                cell = ";".join(elems[:-1] + [""]) + ";"
+            else:
+                cell = "{@[" + ",".join([repr(e) for e in elems[:-1]] + [rng.choice(["''", "0", "0.0", "[]"])]) + "]@}"
         if k >= 1 and rng.random() < 0.15:
             # a native list produced by a template filter: a lazy iterable, a list of elements all the same
             lit = "[" + ",".join(repr(e) for e in elems) + "]"
